@@ -291,10 +291,18 @@ class Ctx:
         if k == "join":
             other = self.operand(rel, op[1])
             pred = None if op[2] is None else A.to_lib(op[2])
-            jflags = {kk: v for kk, v in flags.items() if kk in ("backtrack", "transfer")}
+            if flags:
+                # explicit preferred-engine options: the public PartialJoin.apply route (Relation.join offers
+                # only backtrack/transfer and always prefers the fixed operand's engine)
+                from lsst.daf.relation import Join, Predicate
+
+                j = Join(pred if pred is not None else Predicate.literal(True))
+                if op[3]:
+                    return j.partial(rel).apply(other, **flags)
+                return j.partial(other).apply(rel, **flags)
             if op[3]:
-                return other.join(rel, pred, **jflags)
-            return rel.join(other, pred, **jflags)
+                return other.join(rel, pred)
+            return rel.join(other, pred)
         if k == "mat":
             return rel.materialized(op[1])
         if k == "xfer":
